@@ -3,4 +3,5 @@ package drivers
 // Registry maps sub-command names to drivers.
 var Registry = map[string]func(args []string){
 	"dispatch": Dispatch,
+	"admission": Admission,
 }
